@@ -487,6 +487,10 @@ func runParse(sc *Scenario) *Outcome {
 			out.Keys = append(out.Keys, k)
 		}
 		out.Nontrivial = len(keys) > 0
+		for _, k := range out.Keys {
+			out.Trace += k // order independent
+		}
+		out.Trace ^= uint64(out.Evals) << 40
 		return out
 	}
 	text, base, prec, mode := bs.Text, bs.Base, bs.RecvPrec, bs.RecvMode
